@@ -261,7 +261,7 @@ Lemma session_fit_battery off T V maxP max_len ff conn disc kwh o :
 Proof.
   intro H. apply convert_to_ev_ok in H. cbv zeta in H. destruct H as (Ha & Hdep & He & Hs).
   rewrite Ha, Hdep, He. unfold size_battery in Hs.
-  destruct (batt_cap_fn_Q _ _ V T) as [cap init| |]; try discriminate.
+  destruct (batt_cap_fn_Q _ _ V T) as [cap init| | |]; try discriminate.
   unfold Battery_init_bad in Hs. destruct (Qltb cap init) eqn:E; [discriminate|].
   inversion Hs; subst. split; auto.
   destruct (Qlt_le_dec (ev_cap o) (ev_init o)) as [Hlt|Hle]; auto. apply Qltb_spec in Hlt. congruence.
@@ -506,7 +506,7 @@ Proof.
   destruct (Fit_skip_cap c E) eqn:Es.
   - intro H. destruct (IH H) as (pre & post & -> & H1 & H2 & H3 & H4).
     exists (c :: pre), post. repeat split; auto.
-  - destruct (get_init_cap_Q E n V T c) as [i|] eqn:Eg; [|discriminate].
+  - destruct (get_init_cap_Q E n V T c) as [i| |] eqn:Eg; try discriminate.
     destruct (Fit_accept_init i) eqn:Ea.
     + intro H. inversion H; subst. exists [], rest. cbn. repeat split; auto.
     + intro H. destruct (IH H) as (pre & post & -> & H1 & H2 & H3 & H4).
